@@ -14,6 +14,12 @@ def peel(e, explicit=True):
     """Strip implicit wrappers and (optionally) explicit value-preserving casts."""
     while e is not None:
         k = e.get('kind')
+        if k == 'SubstNonTypeTemplateParmExpr':
+            ks = kids(e)
+            if not ks:
+                return e
+            e = ks[-1]              # the argument substituted for the template parameter
+            continue
         if k in CAST_KINDS:
             ks = kids(e)
             if not ks:
